@@ -109,6 +109,9 @@ func c05Configs(thorough bool) []idxConfig {
 		{Name: "clientMapKey", Client: [][]ckey{{{Col: "m", Key: &k1}}, {{Col: "m", Key: &k2}, {Col: "tag"}}}},
 		{Name: "overlap", Schema: [][]string{{"name"}}, Client: [][]ckey{{{Col: "name"}}, {{Col: "tag"}, {Col: "n"}}, {{Col: "name"}, {Col: "tag"}}}},
 		{Name: "schemaOpt", Schema: [][]string{{"os"}}},
+		// several columns of which some are optional: an unset column and one set to the zero value must not meet
+		{Name: "clientOptMulti", Client: [][]ckey{{{Col: "tag"}, {Col: "os"}}, {{Col: "oi"}, {Col: "n"}}, {{Col: "os"}, {Col: "os2"}}}},
+		{Name: "schemaOptMulti", Schema: [][]string{{"name", "os"}}, Client: [][]ckey{{{Col: "tag"}, {Col: "oi"}}}},
 	}
 	return cfgs
 }
